@@ -495,6 +495,15 @@ def explore(tier, seed, res=None, replay=None):
     if fp_cases:
         judge(fp_cases, collect_fp=False)
 
+    if replay is not None and replay.get("kind") == "misplaced-assignment":
+        # (replay of a misplaced keyword assignment: refused, or some name of the result shows it)
+        d = describe(replay["s"])
+        name = replay.get("name")
+        names = [d.get("response") or ""] + d.get("common", []) + d.get("group", [])
+        if "err" not in d and name and not any(name in nm for nm in names):
+            res.failures.append({"case": dict(replay), "impl": d, "expected": "refused (or a result "
+                                 f"that shows the name {name!r})", "finding": None,
+                                 "why": f"accepted with `{name} =` silently dropped"})
     if replay is None:
         # relation: redundant parentheses and whitespace never change the model description
         rng = rng_for(seed, "c01", "rel")
@@ -559,7 +568,7 @@ def explore(tier, seed, res=None, replay=None):
                     continue
                 names = [d.get("response") or ""] + d.get("common", []) + d.get("group", [])
                 if not any(n in nm for nm in names):
-                    res.failures.append({"case": {"s": text, "kind": "misplaced-assignment"},
+                    res.failures.append({"case": {"s": text, "kind": "misplaced-assignment", "name": n},
                                          "impl": d, "expected": "refused (or a result that shows the "
                                          f"name {n!r})",
                                          "why": f"accepted with `{n} =` silently dropped"})
